@@ -413,6 +413,8 @@ for _n in ('lt', 'le', 'gt', 'ge', 'eq', 'ne'):
   _f, _r = _binop(_n)
   setattr(T, '__%s__' % _n, _f)
 T.__neg__ = lambda self: T(-self.v)
+T.__pos__ = lambda self: T(+self.v)
+T.__invert__ = lambda self: T(~self.v)
 T.__abs__ = lambda self: T(abs(self.v))
 
 
@@ -623,6 +625,22 @@ class CustomInitError(Exception):
     self.a = a
 
 
+class CustomValueError(ValueError):
+  """Derives from a builtin in KNOWN_STRING_CONSTRUCTOR_ERRORS but has its own constructor."""
+
+  def __init__(self, code, limit):
+    ValueError.__init__(self, 'code %s over %s' % (code, limit))
+    self.code = code
+
+
+class CodeError(RuntimeError):
+  """One non-message constructor argument, formatted by the class."""
+
+  def __init__(self, code):
+    RuntimeError.__init__(self, 'E-%d' % code)
+    self.code = code
+
+
 C12 = {'why': None}
 
 
@@ -701,7 +719,9 @@ def post_errors(mode, f, g, args, env):
     return False
   # --- message ---------------------------------------------------------------
   msg = str(ef)
-  if msg and msg not in str(eg):
+  # (the exact message of the NameError family is allowed to differ: reads of unbound
+  # variables are reported by ag__.ld with its own wording)
+  if msg and not isinstance(ef, NameError) and msg not in str(eg):
     C12['why'] = 'original message %r not contained in %r' % (msg, str(eg)[:200])
     return False
   # --- location ----------------------------------------------------------------
